@@ -1391,9 +1391,9 @@ class LogixDriver(CIPDriver):
     def _send_read_fragmented(
         self, request: ReadTagFragmentedRequestPacket
     ) -> ReadTagFragmentedResponsePacket:
+        responses = []
         if not request.error:
             offset = 0
-            responses = []
             while offset is not None:
                 response: ReadTagFragmentedResponsePacket = super().send(request)
                 responses.append(response)
@@ -1417,15 +1417,15 @@ class LogixDriver(CIPDriver):
                 return final_response
 
         failed_response = ReadTagFragmentedResponsePacket(request, None)
-        failed_response._error = request.error or "One or more fragment responses failed"
+        failed_response._error = request.error or _fragments_failed_error(responses)
         self.__log.debug(f"Reassembled Response: {failed_response!r}")
         return failed_response
 
     def _send_write_fragmented(
         self, request: WriteTagFragmentedRequestPacket
     ) -> WriteTagFragmentedResponsePacket:
+        responses = []
         if not request.error:
-            responses = []
             request.build_message()
             segment_size = self.connection_size - (len(request.message) - len(request.value))
             segments = (
@@ -1448,9 +1448,17 @@ class LogixDriver(CIPDriver):
                 return final_response
 
         failed_response = WriteTagFragmentedResponsePacket(request, None)
-        failed_response._error = request.error or "One or more fragment responses failed"
+        failed_response._error = request.error or _fragments_failed_error(responses)
         self.__log.debug(f"Reassembled Response: {failed_response!r}")
         return failed_response
+
+
+def _fragments_failed_error(responses) -> str:
+    # keep the status text of the fragment that failed, it names the reason
+    errors = [resp.error for resp in responses if not resp and resp.error]
+    if errors:
+        return f"One or more fragment responses failed - {errors[0]}"
+    return "One or more fragment responses failed"
 
 
 def _parse_structure_makeup_attributes(response):
